@@ -275,16 +275,18 @@ def run(rep):
                 return c
         return None
     hjobs = hook.run_batch([("actor", ["debut", dh.ITEM]), ("family", ['debut, actor(first_name = "U"), actor(first_name = "V")', dh.ITEM]),
-                            ("actor", ["debut, channel = 2", dh.ITEM]), ("family", ['debut, Mutex, actor(first_name = "U"), actor(first_name = "V")', dh.ITEM])], tag="c13h")
-    mods_src = [("m0", hjobs[0], "ALive", "ALive::new()", "actor"), ("m1", hjobs[1], "UALive", "AFamily::new().u", "family"),
-                ("m2", hjobs[2], "ALive", "ALive::new()", "actor"), ("m3", hjobs[3], "VALive", "AFamily::new().v", "family")]
+                            ("actor", ["debut, channel = 2", dh.ITEM]), ("family", ['debut, Mutex, actor(first_name = "U"), actor(first_name = "V")', dh.ITEM]),
+                            ("actor", ["debut", dh.ITEM_G]), ("actor", ["debut", dh.ITEM_T])], tag="c13h")
+    mods_src = [("m0", hjobs[0], "ALive", "ALive::new()", "actor", None), ("m1", hjobs[1], "UALive", "AFamily::new().u", "family", None),
+                ("m2", hjobs[2], "ALive", "ALive::new()", "actor", None), ("m3", hjobs[3], "VALive", "AFamily::new().v", "family", None),
+                ("m4", hjobs[4], "ALive<u8>", "ALive::<u8>::new()", "actor", dh.DECL_G), ("m5", hjobs[5], "ALive<String>", "ALive::<String>::new()", "actor", dh.DECL_T)]
     mods, mod_ir = [], {}
-    for name, (cls, f), hty, ctor, kind in mods_src:
+    for name, (cls, f), hty, ctor, kind, decl in mods_src:
         if cls != "TOKENS":
             rep.oblige(False)
             rep.violation("harness_expansion_" + name, {"what": "harness item with debut not expanded", "class": cls, "output": f[0][:1500], "item": dh.ITEM}, found=True)
             continue
-        mods.append((name, f[0], True, hty, ctor))
+        mods.append((name, f[0], True, hty, ctor) + ((decl,) if decl else ()))
         import ir as irm
         ex = irm.parse_expansion(f[0])
         if kind == "actor":
